@@ -499,12 +499,43 @@ def run_one_upload(g, u, work):
     old_chunk = upload.EncryptAnUploadable.CHUNKSIZE
     upload.EncryptAnUploadable.CHUNKSIZE = u.get("encchunk") or old_chunk
     c0 = len(g.calllog)
+    faulted = [False]
+    old_policy = g.policy
+    from allmydata.immutable import layout as _layout
+    old_init = _layout.WriteBucketProxy.__init__
+    if u.get("fault"):
+        # forget earlier uploads of the same data: this upload has to push its shares itself
+        for srv in g.servers.values():
+            sd = srv.ss.sharedir
+            for pfx in os.listdir(sd):
+                if pfx != "incoming":
+                    shutil.rmtree(os.path.join(sd, pfx), ignore_errors=True)
+        # small write batches, so that share data is flushed while blocks are still being produced, and one
+        # bucket write (not the first of the upload) fails: the upload goes on with the other shares
+        def _init(self, *a2, **kw2):
+            kw2.setdefault("batch_size", 13)
+            old_init(self, *a2, **kw2)
+        _layout.WriteBucketProxy.__init__ = _init
+        seen = [0]
+
+        def pol(grid):
+            if not grid.pending:
+                return ("timer",)
+            p0 = grid.pending[0]
+            if p0.methname == "write" and not faulted[0]:
+                seen[0] += 1
+                # the first N writes are the share headers; fail a block write of the first or second segment
+                if seen[0] >= u["N"] + 2 + (u["size"] % max(1, u["N"])):
+                    faulted[0] = True
+                    return ("call", 0, "raise")
+            return ("call", 0, None)
+        g.policy = pol
     try:
         up = make_uploadable(u, data, work)
         res = g.run(g.uploader.upload(up))
         cap = res.get_uri()
         parsed = uri.from_string(cap)
-        o = {"outcome": "ok", "cap": cap.decode("ascii"), "calls": len(g.calllog) - c0}
+        o = {"outcome": "ok", "cap": cap.decode("ascii"), "calls": len(g.calllog) - c0, "faulted": faulted[0]}
         if isinstance(parsed, uri.LiteralFileURI):
             o.update(kind="LIT", embeds=(parsed.data == data), si="", key="")
         else:
@@ -515,6 +546,8 @@ def run_one_upload(g, u, work):
         return {"outcome": "error", "what": "%s: %s" % (type(e).__name__, str(e)[:300])}
     finally:
         upload.EncryptAnUploadable.CHUNKSIZE = old_chunk
+        _layout.WriteBucketProxy.__init__ = old_init
+        g.policy = old_policy
 
 
 def mode_converge(a, inp):
